@@ -3,6 +3,7 @@ package txnsim
 import (
 	"fmt"
 	"sort"
+	"strings"
 	"time"
 
 	"github.com/pingcap/kvproto/pkg/kvrpcpb"
@@ -426,4 +427,70 @@ func keysOnly(ps [][2]string) [][2]string {
 		out[i] = [2]string{p[0], ""}
 	}
 	return out
+}
+
+// checkC14 audits the GC phase: range-task coverage, no old lock left, safe-point visibility, delete-range.
+func (c *checker) checkC14(plan *GCPlan, rep *GCReport) {
+	P := "C14"
+	// range task: consecutive, non-overlapping sub-ranges that exactly cover [lo,hi)
+	if plan.RangeLo == plan.RangeHi && plan.RangeLo != "" {
+		// empty range: nothing to demand
+	} else if rep.FailedAt >= 0 {
+		if rep.RangeErr == "" {
+			c.fail(P, "range-task-error-swallowed", "rangetask", "the handler failed on its call #%d (sub-range %q) but RunOnRange returned nil", rep.FailedAt, rep.Ranges[rep.FailedAt])
+		}
+	} else if rep.RangeErr == "" {
+		rs := append([][2]string(nil), rep.Ranges...)
+		sort.Slice(rs, func(i, j int) bool { return rs[i][0] < rs[j][0] })
+		cur := plan.RangeLo
+		ok := true
+		why := ""
+		for i, r := range rs {
+			if r[0] != cur {
+				ok, why = false, fmt.Sprintf("sub-range %d starts at %q, expected %q (gap or overlap)", i, r[0], cur)
+				break
+			}
+			if r[1] == "" && i != len(rs)-1 {
+				ok, why = false, fmt.Sprintf("sub-range %d is unbounded but is not the last", i)
+				break
+			}
+			if r[1] != "" && r[1] <= r[0] {
+				ok, why = false, fmt.Sprintf("sub-range %d [%q,%q) is empty or reversed", i, r[0], r[1])
+				break
+			}
+			cur = r[1]
+		}
+		if ok && cur != plan.RangeHi {
+			ok, why = false, fmt.Sprintf("coverage ends at %q, requested end is %q", cur, plan.RangeHi)
+		}
+		if ok && len(rs) == 0 {
+			ok, why = false, "no sub-range was handed to the handler"
+		}
+		if !ok {
+			c.fail(P, "range-task-coverage", "rangetask", "RunOnRange([%q,%q)) handed sub-ranges %q: %s", plan.RangeLo, plan.RangeHi, rs, why)
+		}
+	}
+	if rep.GCErr == "" && len(rep.LocksAfter) > 0 {
+		c.fail(P, "gc-left-old-lock", "gc", "GC to safe point %d (scan limit %d, concurrency %d) reported success but locks at or below the safe point remain: %v", rep.SafePoint, plan.ScanLimit, plan.Concurrency, rep.LocksAfter)
+	}
+	if rep.GCErr == "" && rep.SafePoint > 1 {
+		if rep.BelowErr != "aborted-by-gc" {
+			c.fail(P, "read-below-safe-point-served", "safepoint", "a snapshot read at ts %d below the cached transaction safe point %d returned %q instead of the aborted-by-GC error", rep.SafePoint-1, rep.SafePoint, rep.BelowErr)
+		}
+		if rep.AtErr == "aborted-by-gc" || strings.Contains(rep.AtErr, "GC") {
+			c.fail(P, "read-at-safe-point-refused", "safepoint", "a snapshot read at the safe point %d was refused: %s", rep.SafePoint, rep.AtErr)
+		}
+	}
+	if rep.DelDone && rep.DelErr == "" {
+		for k, before := range rep.TruthBefore {
+			after := rep.TruthAfter[k]
+			in := (plan.DelLo == "" || k >= plan.DelLo) && (plan.DelHi == "" || k < plan.DelHi)
+			if in && (len(after.Writes) > 0 || after.Lock != nil) {
+				c.fail(P, "delete-range-left-key", "deleterange", "DeleteRangeTask([%q,%q)) left key %q: %s", plan.DelLo, plan.DelHi, k, describeKey(after))
+			}
+			if !in && describeKey(before) != describeKey(after) {
+				c.fail(P, "delete-range-touched-outside", "deleterange", "DeleteRangeTask([%q,%q)) changed key %q outside the range: before %s after %s", plan.DelLo, plan.DelHi, k, describeKey(before), describeKey(after))
+			}
+		}
+	}
 }
